@@ -108,6 +108,20 @@ package generator
 //@ ensures result != nil && vs_fresh(result) && result.initialized && vs_reservedSetOK(result) && vs_noneEndsInVar(result.ReservedWords)
 //@ ensures vs_all(func(w string) bool { return vs_isGoKeyword(w) ==> vs_inWords(result.ReservedWords, len(result.ReservedWords), w) })
 
+//@ func renameTimeout
+//@ props C01
+//@ safety
+//@ modifies nothing
+//@ ensures seenIDs == nil ==> result == timeoutName
+//@ ensures seenIDs != nil ==> !vs_has(seenIDs, strings.ToLower(result))
+
+//@ func paramMappings
+//@ props C01
+//@ ensures vs_called("renameTimeout") && result1 == vs_callResult[string]("renameTimeout", 0)
+//@ ensures !vs_has(vs_callArg[map[string]interface{}]("renameTimeout", 0), strings.ToLower(result1))
+//@ loop 1 invariant seenIDs != nil && idMapping != nil
+//@ loop 1 step vs_has(idMapping, p.In) && p.Name != "" ==> vs_has(seenIDs, strings.ToLower(idMapping[p.In][p.Name]))
+
 // ---- C11: regeneration never destroys user code ----
 
 //@ func fileExists
@@ -140,7 +154,7 @@ package generator
 //@ ensures result == nil && !(t.SkipExists && fileExists(vs_callResult[string]("location", 0), vs_callResult[string]("location", 1))) ==> vs_called("WriteFile") && vs_called("render")
 
 //@ func DefaultSectionOpts
-//@ props C11
+//@ props C11 C08
 //@ requires gen != nil
 //@ modifies &gen.Sections
 //@ ensures old(len(gen.Sections.Application)) == 0 ==> vs_all(func(i int) bool { return 0 <= i && i < len(gen.Sections.Application) ==> gen.Sections.Application[i].SkipExists == (gen.Sections.Application[i].Name == "configure" && !gen.RegenerateConfigureAPI) })
@@ -149,6 +163,8 @@ package generator
 //@ ensures old(len(gen.Sections.Operations)) == 0 ==> vs_all(func(i int) bool { return 0 <= i && i < len(gen.Sections.Operations) ==> !gen.Sections.Operations[i].SkipExists })
 //@ ensures old(len(gen.Sections.OperationGroups)) == 0 ==> vs_all(func(i int) bool { return 0 <= i && i < len(gen.Sections.OperationGroups) ==> !gen.Sections.OperationGroups[i].SkipExists })
 //@ ensures old(len(gen.Sections.Application)) != 0 ==> vs_same(gen.Sections.Application, old(gen.Sections.Application))
+//@ ensures @C08 old(len(gen.Sections.Models)) == 0 ==> vs_all(func(i int) bool { return 0 <= i && i < len(gen.Sections.Models) ==> strings.HasPrefix(gen.Sections.Models[i].FileName, vs_goNameFile) })
+//@ ensures @C08 old(len(gen.Sections.Operations)) == 0 ==> vs_all(func(i int) bool { return 0 <= i && i < len(gen.Sections.Operations) ==> strings.HasPrefix(gen.Sections.Operations[i].FileName, vs_goNameFile) })
 
 //@ func (*LanguageDefinition).ConfigureOpts
 //@ props C11
